@@ -28,9 +28,9 @@ def impl_body(cfg, history, W):
     dtype = getattr(torch, cfg.get('model_dtype', 'float32'))
 
     def body(rank):
-        model = kfacrun.make_model(cfg['model'], cfg.get('model_seed', 0), dtype)
+        model = kfacrun.make_model(cfg['model'], cfg.get('model_seed', 0), dtype, nest_from=cfg.get('nest_from'))
         p = kfacrun.build_precond(model, cfg)
-        mods = [m for m in model if isinstance(m, (torch.nn.Linear, torch.nn.Conv2d))]
+        mods = [m for m in model.modules() if isinstance(m, (torch.nn.Linear, torch.nn.Conv2d))]
 
         def mk_sched(pp):
             if not cfg.get('sched'):
